@@ -256,3 +256,18 @@ def _fp_key(k):
     if k is ...:
         return "..."
     return _fp_val(k)
+
+
+def inherit_examples(rspec, spec):
+    """decode() cannot know the harness-side examples of a pattern: copy them from the original spec
+    onto decoded nodes that carry the same pattern (needed for constructive witnesses of results)."""
+    from .spec import walk
+    table = {}
+    for _, n in walk(spec):
+        if n["k"] == "str" and n.get("pattern") is not None and n.get("examples"):
+            table.setdefault(n["pattern"], n["examples"])
+    for _, n in walk(rspec):
+        if n["k"] == "str" and n.get("pattern") is not None and not n.get("examples"):
+            if n["pattern"] in table:
+                n["examples"] = table[n["pattern"]]
+    return rspec
